@@ -196,12 +196,13 @@ def check_pair(res: Res, table, ref: RefTable, entries, s: str, crlf: bool = Fal
 def gen_program(rng: random.Random) -> dict:
     """A tree of scopes with .table / .text statements.  Returns {"tables": {...}, "tree": [...]}."""
     ntab = rng.randint(1, 4)
+    same_base = rng.random() < 0.3
     tables = {}
     for i in range(ntab):
         ents = [e for e in gen_entries(rng) if "'" not in e[1] and "\\" not in e[1]]
         if rng.random() < 0.3:
             ents.append((bytes([rng.randrange(256)]), "'"))       # written \' inside a quoted string
-        tables[f"t{i}.tbl"] = ser(ents)
+        tables[f"lang{i}/menu.tbl" if same_base else f"t{i}.tbl"] = ser(ents)      # (several files of one name in different directories)
     counter = [0]
     defined_macros: list[int] = []
 
